@@ -109,6 +109,16 @@ def main():
     except Exception:
         meta = {'raw_meta': open(mp).read()}
     meta['breaks_property'] = prop
+    hist_ = meta.get('history', [])
+    old_v = meta.get('lead_verification')
+    if old_v and not hist_:
+        hist_.append('%s %s' % (old_v.get('at', '?'), ', '.join(
+            '%s=%s' % (c, {0: 'missed', 1: 'caught'}.get(r['exit'], 'error'))
+            for c, r in sorted(old_v.get('checks', {}).items()))))
+    hist_.append('%s %s' % (ver['at'], ', '.join(
+        '%s=%s' % (c, {0: 'missed', 1: 'caught'}.get(r['exit'], 'error'))
+        for c, r in sorted(ver['checks'].items()))))
+    meta['history'] = hist_
     meta['lead_verification'] = ver
     json.dump(meta, open(mp, 'w'), indent=1)
     print(json.dumps(ver, indent=1))
